@@ -3,6 +3,7 @@ package scen
 import (
 	"fmt"
 	"strconv"
+	"strings"
 
 	res "github.com/jirenius/go-res"
 
@@ -51,7 +52,11 @@ func newMiniSvc(sim *sched.Sim, h *Hist, name string, workers int) *miniSvc {
 		if m.conn.PendingInbound() == 0 {
 			return nil
 		}
-		return []sched.Action{{Label: "deliver", Do: func() { m.conn.DeliverHead(false) }}}
+		return []sched.Action{{Label: "deliver", Do: func() {
+			if d := m.conn.DeliverHead(false); d != nil && strings.HasPrefix(d.Dropped, "panic: ") {
+				h.Violate("C03", "panic", "delivery: "+strings.TrimPrefix(d.Dropped, "panic: "), "delivering a message to a subscription channel of the service panicked: "+d.Dropped)
+			}
+		}}}
 	})
 	return m
 }
